@@ -304,6 +304,9 @@ func (r *Run) FinishNoExit() int {
 		return 2
 	}
 	dir := filepath.Join(VerifDir(), "evidence")
+	if d := os.Getenv("VERIF_EVIDENCE_DIR"); d != "" {
+		dir = d // replays: the re-run must not overwrite the evidence of the registered run
+	}
 	_ = os.MkdirAll(dir, 0o755)
 	if err := os.WriteFile(filepath.Join(dir, r.ID+".json"), append(b, '\n'), 0o644); err != nil {
 		fmt.Fprintf(os.Stderr, "evidence write: %v\n", err)
